@@ -106,11 +106,17 @@ def run(ctx):
     ops = ctx.read_lines(ops_p)
 
     def history_ops(i):
-        """ops of the history that line i belongs to, up to and including line i"""
+        """ops of the history that line i belongs to, up to and including line i; shrunk: deliveries that the
+        implementation rejected (shown inert by the oracle below) are dropped, except the last one"""
         k = i
         while k > 0 and not ops[k].startswith('{"op":"hist"'):
             k -= 1
-        return "\n".join(ops[k:i + 1]) + "\n"
+        keep = [ops[k]]
+        for j in range(k + 1, i + 1):
+            rejected = j < len(impl) and re.match(r"pair \S+ (err|panic)\S* \[db-same\] =$", impl[j])
+            if j == i or not rejected:
+                keep.append(ops[j])
+        return "\n".join(keep) + "\n"
 
     # ---- direct property oracles on the implementation's own outputs
     kinds, classes, labels = Counter(), Counter(), Counter()
@@ -202,6 +208,25 @@ def run(ctx):
     ctx.oblige("oracle:rejected-is-inert,accepted-is-authorised-and-well-formed(impl)", not oracle, json.dumps(dict(oracle)))
 
     # ---- correspondence model vs implementation
+    # a delivery that the implementation ACCEPTS while the model (whose acceptance is proved to imply the authorisation
+    # predicate and well-formedness) REJECTS it, all earlier lines of the history agreeing, is a concrete failing input
+    if bad:
+        agree = True   # all outcome classes of the current history agreed so far
+        for i in range(min(len(impl), len(model))):
+            if impl[i].startswith("hist "):
+                agree = True
+                continue
+            if not impl[i].startswith("pair ") or not agree:
+                continue
+            ip, mp = impl[i].split(" "), model[i].split(" ")
+            ic, mc = ip[2], (mp[2] if len(mp) > 2 else "?")
+            if ic != mc:
+                agree = False
+                if ic == "ok":
+                    report("implementation-accepts-what-the-model-rejects:" + re.sub(r"[^a-z:-]", "", mc),
+                           f"the implementation accepted a (transaction, document) pair that the model rejects with {mc}", i)
+    if oracle:
+        ctx.oblige("oracle:accepted-only-if-model-accepts(impl)", False, json.dumps(dict(oracle)))
     if bad:
         i = bad[0]
         detail = f"first differing line {i}\nimpl : {impl[i][:1200] if i < len(impl) else None}\nmodel: {model[i][:1200] if i < len(model) else None}"
